@@ -12,6 +12,32 @@ let handle (toks : string list) : string =
     let g = z_of_string g in
     let p = Gen.pre g in
     String.concat " " [string_of_z g; string_of_z p; string_of_z (Gen.post p)]
+  | "cba" :: rest ->
+    (match List.map z_of_string rest with
+     | [as_s; as_n; va_s; va_n; bound; drift; st; re_s; re_n; mo_s; mo_n] ->
+       let status = (match Client.status_of_code st with Some s -> s | None -> Client.Unknown) in
+       let c = { Client.c_as_of = { Mach.ts_sec = as_s; Mach.ts_nsec = as_n };
+                 Client.c_void_after = { Mach.ts_sec = va_s; Mach.ts_nsec = va_n };
+                 Client.c_bound = bound; Client.c_drift = drift; Client.c_reserved = Z0;
+                 Client.c_status = status } in
+       (match Client.compute_bound_at c { Mach.ts_sec = re_s; Mach.ts_nsec = re_n }
+                { Mach.ts_sec = mo_s; Mach.ts_nsec = mo_n } with
+        | Client.Ok ((e, l), st) ->
+          String.concat " " ["ok"; string_of_z e.Mach.ts_sec; string_of_z e.Mach.ts_nsec;
+                             string_of_z l.Mach.ts_sec; string_of_z l.Mach.ts_nsec;
+                             string_of_z (Client.status_code st)]
+        | Client.Err Client.EMalformed -> "err malformed"
+        | Client.Err Client.ECausality -> "err causality"
+        | Client.Panic -> "panic")
+     | _ -> failwith "cba: 11 integers expected")
+  | "bnd" :: d :: e :: o :: [] ->
+    string_of_z (Bound.bound_of_words (z_of_string d) (z_of_string e) (z_of_string o))
+  | "bnds" :: d :: e :: o :: [] ->
+    string_of_z (Bound.bound_of_words_signed (z_of_string d) (z_of_string e) (z_of_string o))
+  | "cls" :: leap :: itv :: kind :: secs :: nanos :: [] ->
+    let age = if z_of_string kind = Z0 then Some (z_of_string secs, z_of_string nanos) else None in
+    string_of_z (Client.status_code (Bound.classify (z_of_string leap) (z_of_string itv) age))
+  | "gro" :: e :: d :: [] -> string_of_z (Client.growth (z_of_string e) (z_of_string d))
   | tag :: _ -> failwith ("unknown tag " ^ tag)
   | [] -> ""
 
